@@ -26,6 +26,15 @@ def corpus():
         (L.Sched(labels=["D0", N("player"), N("player"), N("mixer"), N("player"), "S*", "D0", "S*", N("x"), N("x"), "D0"] + L.flush(0), note="the same name on consecutive lines of one reply"),
          ["player", "player", "mixer", "player", "x", "x"]),
     ] + [
+        # an idle reply with other fields among the changed: lines (a newer server, a proxy): every changed: line still counts
+        (L.Sched(labels=["D0", "S*", "G:" + hexs(body), "t200"], note="idle reply with foreign fields"), names_)
+        for body, names_ in ((b"changed: player\npartition: default\nchanged: mixer\nchanged: output\nOK\n", ["player", "mixer", "output"]),
+                             (b"partition: default\nchanged: player\nOK\n", ["player"]),
+                             (b"changed: player\nChanged: mixer\nchanged: options\nOK\n", ["player", "options"]),
+                             (b"changed: a\nx: changed: b\nchanged: c\nchanged: \nOK\n", ["a", "c", ""]))
+    ] + [
+        (L.Sched(labels=["D0", "S*", "G:" + hexs(b"changed: player\nfoo: bar\n"), "D0", "G:" + hexs(b"changed: mixer\nOK\n"), "t200"], note="the same, the reply in two pieces"), ["player", "mixer"]),
+    ] + [
         # the idle reply arrives in three pieces and the request is issued between the second and the third
         (L.Sched(labels=["D0", "S*", N("player"), f"D{k}", "D1", "c1:" + e, "D0", "S*", "D0"] + L.flush(1), note=f"idle reply cut after {k} and {k + 1} bytes, request in between"), ["player"])
         for k in range(1, 18)
